@@ -239,7 +239,7 @@ def r15(ck, prog):
 def run(ck, progs):
     describe(ck)
     for cfg, prog in progs.items():
-        r15(ck, prog)
+        ck.attempt(r15, ck, prog)
     return ("Reaching-definition agreement inside write_msa_msf between the header's declared length, the checksum spans "
             "and the bound that terminates row emission; pairing of Name: and Check: on the same sequence index; the "
             "predicate that selects banner and Type:.")
